@@ -1,7 +1,15 @@
 import engine_check
+import shipped
+
+
 def run(ctx):
     engine_check.run(ctx, "C03", sanitize_thorough=True)
-    ctx.note("partial w.r.t. raw memory: the theorem covers API-level accesses of the model; raw reads through current() in the C++ are validated by ASan on exact-size heap buffers (thorough tier) and by the bounds hook")
+    # shipped grammars (json, uri, http, integer, raw_string, abnf, ...) on exact-size heap buffers: guarded bounds hook in every
+    # memory_input (incl. the ones PEGTL constructs internally); thorough: the same again under ASan/UBSan
+    shipped.run_oracle(ctx, "C03")
+    if ctx.tier == "thorough":
+        shipped.run_oracle(ctx, "C03", sanitize=True)
+
 
 def replay(j):
     return engine_check.replay(j)
